@@ -392,8 +392,8 @@ def ruleCost : Fn → Op R → Nat
   | f, A@(generic _) => genCost f A
 
 /-- Σ of the dense sizes `rows · cols` of the FACTORS (the leaves of the structured part of the tree):
-    "the dense sizes of the individual factors" of the statement.  A node that no rule family looks
-    into (sliced, concatenated, no_dispatch wrapper, …) counts as one factor. -/
+    "the dense sizes of the individual factors" of the statement.  (The value on a sliced / concatenated /
+    `no_dispatch` node — its full `rows · cols` — is never used by `C19_rule_cost`: `deepRule` is false there.) -/
 def factorDense : Op R → Nat
   | annot _ A => factorDense A
   | kron Ms => (Ms.map (fun M => factorDense M)).sum
@@ -441,7 +441,10 @@ def linSize : Op R → Nat
   | A@(generic _) => 2 * (A.vol + 4)
 
 /-- the rules reach down to the factors: every composite node met along the recursion of `f(A)` has a
-    structural rule (so that `dens f A` consists of factors only) -/
+    structural rule (so that `dens f A` consists of factors only), and every node the recursion ends in is a
+    LEAF kind (Dense, Triangular, Sparse, Diagonal, Identity, ScalarMul, Tridiagonal, Permutation, Householder) —
+    never a sliced / concatenated / `no_dispatch`-wrapped operator (round 3: those returned `true` before, so
+    the bound of `C19_rule_cost` contained their full `rows · cols`) -/
 def deepRule : Fn → Op R → Bool
   | f, annot _ A => deepRule f A
   | f, kron Ms =>
@@ -466,6 +469,21 @@ def deepRule : Fn → Op R → Bool
   | f, adjoint A =>
       match act f .adjoint with
       | .leaf => true | .self => false | .members g => deepRule g A
-  | _, _ => true
+  -- FACTORS: leaf kinds; `factorDense` holds their own dense size `rows · cols`
+  | _, eye _ _ => true
+  | _, scalar _ _ _ => true
+  | _, diag _ _ _ => true
+  | _, dense _ _ _ _ => true
+  | _, tri _ _ _ _ _ => true
+  | _, perm _ _ => true
+  | _, sparse _ _ _ _ => true
+  | _, tridiag _ _ _ _ _ => true
+  | _, house _ _ _ _ => true
+  -- round 3: COMPOSITE / OPAQUE kinds without any structural rule (a slice of an operator, a concatenation, a
+  -- `no_dispatch` wrapper) are NOT factors: the generic rule takes the whole node, whose dense size may be the n²
+  -- of a structured operator inside it.  `C19_rule_cost` does not apply to a tree in which the recursion meets one.
+  | _, sliced _ _ _ => false
+  | _, concat _ _ => false
+  | _, generic _ => false
 
 end Op
